@@ -362,7 +362,8 @@ fn ladder_kmax(family: &str, t: Tier) -> usize {
         "nested_blocks" | "nested_generics" | "nested_tuples" | "expr_chain" | "nested_if" | "nested_parens" | "nested_structs" | "nested_while" | "method_chain"
     );
     match (t, family) {
-        (Tier::Quick, "consts") => 13,
+        // exponential in the nesting depth (measured: depth 24 = 85 s): the quick tier stays below the blow-up
+        (Tier::Quick, "nested_generics") => 4,
         (Tier::Quick, _) => {
             if deep {
                 6
@@ -377,7 +378,7 @@ fn ladder_kmax(family: &str, t: Tier) -> usize {
 
 fn run_ladder_family(family: &'static str, idx: usize, scratch: &std::path::Path, t: Tier, slowdown: f64) -> LadderResult {
     let slow_ms: u64 = (t.pick(6_000.0, 20_000.0) * slowdown) as u64;
-    let timeout = Duration::from_secs((t.pick(120.0, 300.0) * slowdown) as u64);
+    let timeout = Duration::from_secs((120.0 * slowdown) as u64);
     let mut drv = SeqDriver::new(scratch, idx, 24 << 30);
     let mut res = LadderResult { rungs: vec![], failures: vec![], caps: vec![], builds: 0 };
     // warm-up: std type-checked once per profile, not measured
@@ -386,8 +387,7 @@ fn run_ladder_family(family: &'static str, idx: usize, scratch: &std::path::Path
         vhcore::machinery_failure(&format!("ladder warm-up failed: {e}"));
     }
     let kmax = ladder_kmax(family, t);
-    // the `consts` ladder in the quick tier jumps straight to the interesting sizes
-    let ks: Vec<usize> = if t == Tier::Quick && family == "consts" { vec![10, 11, 12, 13] } else { (0..=kmax).collect() };
+    let ks: Vec<usize> = (0..=kmax).collect();
     let mut prev_ms: u64 = 0;
     for k in ks {
         let n = 1usize << k;
